@@ -11,7 +11,7 @@ PROPERTY_ID = "C27"
 LEVEL = "exploration"
 RULE = ("G-core generated programs without assignment, `+=`, while loops or failing operations (so re-evaluating a "
         "top-level expression gives the values of its first evaluation), whose top-level statements are used as they "
-        "are or moved into a `test` block. Positions: for 3..5 random value expressions of the top-level code (every "
+        "are or moved into a `test` block. Positions: for 4..6 random value expressions of the top-level code (every "
         "kind: variables, literals, operators, calls, method calls, closures' call sites, if / match values, list / "
         "tuple literals, inside for bodies, match arms and nested blocks; not inside closure bodies, which are "
         "evaluated at their call, not with the top-level expression that creates them) a byte offset whose innermost expression "
@@ -50,8 +50,12 @@ def gen(r):
             # creates it is: eval-up-to has no call to take the arguments from, so such positions are out of scope
             if any(ls <= n.span[0] and n.span[1] <= le for ls, le in lambdas):
                 continue
-            spans.append([n.span[0], n.span[1], n.kind])
-    picks = [r.int(0, (1 << 16) - 1) for _ in range(r.int(3, 5))]
+            # calls, method calls, operators and branching expressions are listed three times (picked 3x as often
+            # as literals and variables)
+            w = 3 if n.kind in ("call", "callv", "callb", "method", "if", "match", "bin", "cmp") else 1
+            for _ in range(w):
+                spans.append([n.span[0], n.span[1], n.kind])
+    picks = [r.int(0, (1 << 16) - 1) for _ in range(r.int(4, 6))]
     return {"src": src, "spans": spans, "picks": picks, "in_test": r.bool(0.25), "main_start": main_start}
 
 
